@@ -241,6 +241,11 @@ CLAIMED.update({
 })
 
 NOT_YET = {
+  "C08": "solver-based checking would need a reference CEA-608 protocol decoder (two 15x32 memories, pop-on/roll-up/paint-on, duplicate-code "
+         "suppression, transmission windows) precise enough that every disagreement with ttconv's idiosyncratic caption model (roll-up "
+         "anchored to row 15, paint-on split into paragraphs per PAC, alignment guessing) is explainable from CEA-608; that reference could "
+         "not be completed and made silent on the unchanged tree within the build time, and a noisy check is worse than none. The parts it "
+         "rests on are decided elsewhere: word decoding by C17 (all 65 536 words), time-code arithmetic by C12. See DESIGN.md §8.6.",
 }
 
 def main():
